@@ -172,6 +172,14 @@ func parseFileRule(c *Ctx, a *flAgg) {
 	x := &SPE{Fn: fn, MaxVisits: 2}
 	x.Explore()
 	cN := fn.Params[0].Name()
+	for _, prm := range fn.Params {
+		// the call is the *Call parameter, wherever it stands
+		if pt, ok := prm.Type().(*types.Pointer); ok {
+			if nt, ok := pt.Elem().(*types.Named); ok && nt.Obj().Name() == "Call" {
+				cN = prm.Name()
+			}
+		}
+	}
 	okAll, n := true, 0
 	why := ""
 	for _, p := range x.Paths {
